@@ -266,6 +266,14 @@ def kraus_valid(repo: Repo) -> List[Ob]:
             t = src(e)
             if ".shape" in t and isinstance(e, (ast.Compare, ast.UnaryOp, ast.BoolOp)):
                 return True
+            # first = next((op for op in operators if op.shape != (d, d)), None) … `if first is not None: raise`
+            if isinstance(e, ast.Compare) and len(e.ops) == 1 and isinstance(e.ops[0], (ast.Is, ast.IsNot)) and isinstance(e.left, ast.Name) \
+                    and isinstance(e.comparators[0], ast.Constant) and e.comparators[0].value is None:
+                from ..model import single_defs as _sd3
+                v_ = _sd3(fi.node).get(e.left.id)
+                if isinstance(v_, ast.Call) and isinstance(v_.func, ast.Name) and v_.func.id == "next" and v_.args and isinstance(v_.args[0], (ast.GeneratorExp, ast.ListComp)) \
+                        and any(".shape" in src(c_) for g_ in v_.args[0].generators for c_ in g_.ifs):
+                    return True
             # any(op.shape != (d, d) for op in operators) / not all(op.shape == (d, d) for op in operators)
             inner = e.operand if isinstance(e, ast.UnaryOp) and isinstance(e.op, ast.Not) else e
             if isinstance(inner, ast.Call) and isinstance(inner.func, ast.Name) and inner.func.id in ("any", "all") and len(inner.args) == 1 \
